@@ -278,7 +278,9 @@ func (g *graphMemoizer) Objects(ctx context.Context, s *node.Node, p *predicate.
 	wg.Wait()
 	verifYield(ctx, "read:after-forward")
 	g.mu.Lock()
-	if g.gen == gen {
+	// Only a lookup that went through is worth memoizing: a failed one may
+	// have delivered only part of the answer.
+	if err == nil && g.gen == gen {
 		g.memO[k] = mobjs
 	}
 	g.mu.Unlock()
@@ -360,7 +362,9 @@ func (g *graphMemoizer) Subjects(ctx context.Context, p *predicate.Predicate, o 
 	wg.Wait()
 	verifYield(ctx, "read:after-forward")
 	g.mu.Lock()
-	if g.gen == gen {
+	// Only a lookup that went through is worth memoizing: a failed one may
+	// have delivered only part of the answer.
+	if err == nil && g.gen == gen {
 		g.memN[k] = msubs
 	}
 	g.mu.Unlock()
@@ -432,7 +436,9 @@ func (g *graphMemoizer) PredicatesForSubject(ctx context.Context, s *node.Node, 
 	wg.Wait()
 	verifYield(ctx, "read:after-forward")
 	g.mu.Lock()
-	if g.gen == gen {
+	// Only a lookup that went through is worth memoizing: a failed one may
+	// have delivered only part of the answer.
+	if err == nil && g.gen == gen {
 		g.memP[k] = mpreds
 	}
 	g.mu.Unlock()
@@ -504,7 +510,9 @@ func (g *graphMemoizer) PredicatesForObject(ctx context.Context, o *triple.Objec
 	wg.Wait()
 	verifYield(ctx, "read:after-forward")
 	g.mu.Lock()
-	if g.gen == gen {
+	// Only a lookup that went through is worth memoizing: a failed one may
+	// have delivered only part of the answer.
+	if err == nil && g.gen == gen {
 		g.memP[k] = mpreds
 	}
 	g.mu.Unlock()
@@ -576,7 +584,9 @@ func (g *graphMemoizer) PredicatesForSubjectAndObject(ctx context.Context, s *no
 	wg.Wait()
 	verifYield(ctx, "read:after-forward")
 	g.mu.Lock()
-	if g.gen == gen {
+	// Only a lookup that went through is worth memoizing: a failed one may
+	// have delivered only part of the answer.
+	if err == nil && g.gen == gen {
 		g.memP[k] = mpreds
 	}
 	g.mu.Unlock()
@@ -648,7 +658,9 @@ func (g *graphMemoizer) TriplesForSubject(ctx context.Context, s *node.Node, lo 
 	wg.Wait()
 	verifYield(ctx, "read:after-forward")
 	g.mu.Lock()
-	if g.gen == gen {
+	// Only a lookup that went through is worth memoizing: a failed one may
+	// have delivered only part of the answer.
+	if err == nil && g.gen == gen {
 		g.memT[k] = mts
 	}
 	g.mu.Unlock()
@@ -720,7 +732,9 @@ func (g *graphMemoizer) TriplesForPredicate(ctx context.Context, p *predicate.Pr
 	wg.Wait()
 	verifYield(ctx, "read:after-forward")
 	g.mu.Lock()
-	if g.gen == gen {
+	// Only a lookup that went through is worth memoizing: a failed one may
+	// have delivered only part of the answer.
+	if err == nil && g.gen == gen {
 		g.memT[k] = mts
 	}
 	g.mu.Unlock()
@@ -792,7 +806,9 @@ func (g *graphMemoizer) TriplesForObject(ctx context.Context, o *triple.Object, 
 	wg.Wait()
 	verifYield(ctx, "read:after-forward")
 	g.mu.Lock()
-	if g.gen == gen {
+	// Only a lookup that went through is worth memoizing: a failed one may
+	// have delivered only part of the answer.
+	if err == nil && g.gen == gen {
 		g.memT[k] = mts
 	}
 	g.mu.Unlock()
@@ -864,7 +880,9 @@ func (g *graphMemoizer) TriplesForSubjectAndPredicate(ctx context.Context, s *no
 	wg.Wait()
 	verifYield(ctx, "read:after-forward")
 	g.mu.Lock()
-	if g.gen == gen {
+	// Only a lookup that went through is worth memoizing: a failed one may
+	// have delivered only part of the answer.
+	if err == nil && g.gen == gen {
 		g.memT[k] = mts
 	}
 	g.mu.Unlock()
@@ -936,7 +954,9 @@ func (g *graphMemoizer) TriplesForPredicateAndObject(ctx context.Context, p *pre
 	wg.Wait()
 	verifYield(ctx, "read:after-forward")
 	g.mu.Lock()
-	if g.gen == gen {
+	// Only a lookup that went through is worth memoizing: a failed one may
+	// have delivered only part of the answer.
+	if err == nil && g.gen == gen {
 		g.memT[k] = mts
 	}
 	g.mu.Unlock()
@@ -1030,7 +1050,9 @@ func (g *graphMemoizer) Triples(ctx context.Context, lo *storage.LookupOptions, 
 	wg.Wait()
 	verifYield(ctx, "read:after-forward")
 	g.mu.Lock()
-	if g.gen == gen {
+	// Only a lookup that went through is worth memoizing: a failed one may
+	// have delivered only part of the answer.
+	if err == nil && g.gen == gen {
 		g.memT[k] = mts
 	}
 	g.mu.Unlock()
